@@ -794,6 +794,16 @@ def _slice(self, start_operands, control=True, start_bb=None, mut_flows=False):
             if self.kind == "closure" and l == 1 and names:
                 res["upvars"].add(names[0])
             res["args"].add((l, names))
+        # field-sensitive for locals that are only ever built by whole aggregates (tuples / structs)
+        first = pl["p"][0] if pl["p"] else None
+        if isinstance(first, dict) and "f" in first and not self.is_arg(l):
+            ds = defs.get(l, [])
+            if ds and all(d[0] == "stmt" and d[3]["k"] == "assign" and not d[3]["pl"]["p"] and d[3]["rv"]["k"] == "agg"
+                          and len(d[3]["rv"]["ops"]) > first["f"] for d in ds):
+                for d in ds:
+                    add_operand(d[3]["rv"]["ops"][first["f"]])
+                    add_bb_control(d[1])
+                return
         work.append(l)
 
     def add_bb_control(bb):
